@@ -20,34 +20,34 @@ type OpRec struct {
 	InvSeq uint64
 	RetSeq uint64
 	// calls
-	NilFunc   bool
-	Args      []string // ident per parameter as passed by the caller
-	ArgsDesc  []string
-	Tuple     string // joined Args: what a record of this call must look like
-	CbCount   int
-	CbSeq     uint64
-	CbTaskOK  bool
-	CbGoidOK  bool
-	CbArgs    []string
-	CbHeld    []string
-	CbSelfVis int    // -1 not checked, 0 record not visible inside callback, 1 visible
-	CbSelfLast bool  // sequential runs: record was the last element
-	Want      []string // results the callback produced
-	Got       []string // results the caller saw
-	GotZero   []bool
-	Outcome   string // return, panic, goexit, aborted
-	PanicSame bool   // caller observed the callback's own panic value
-	PanicText string
-	PostLen   int // length of MCalls() right after a nil-function panic in default mode (-1 otherwise)
-	PostHas   bool
+	NilFunc     bool
+	Args        []string // ident per parameter as passed by the caller
+	ArgsDesc    []string
+	Tuple       string // joined Args: what a record of this call must look like
+	CbCount     int
+	CbSeq       uint64
+	CbTaskOK    bool
+	CbGoidOK    bool
+	CbArgs      []string
+	CbHeld      []string
+	CbSelfVis   int      // -1 not checked, 0 record not visible inside callback, 1 visible
+	CbSelfLast  bool     // sequential runs: record was the last element
+	Want        []string // results the callback produced
+	Got         []string // results the caller saw
+	GotZero     []bool
+	Outcome     string // return, panic, goexit, aborted
+	PanicSame   bool   // caller observed the callback's own panic value
+	PanicText   string
+	PostLen     int // length of MCalls() right after a nil-function panic in default mode (-1 otherwise)
+	PostHas     bool
 	SnapChanged string
-	PostAll map[string][]string // seq runs: every method's records right after a reset op
+	PostAll     map[string][]string // seq runs: every method's records right after a reset op
 	// reads
-	Snap     []string // one tuple per record
-	snapVal  reflect.Value
-	Done     bool
-	Starved  bool
-	Blocked  []string
+	Snap    []string // one tuple per record
+	snapVal reflect.Value
+	Done    bool
+	Starved bool
+	Blocked []string
 }
 
 // Obs is everything observed in one run.
@@ -73,13 +73,13 @@ type taskState struct {
 type panicSentinel struct{ op int }
 
 type runner struct {
-	c    *Cell
-	p    *Plan
-	sim  *simrt.Sim
-	mock reflect.Value
-	obs  *Obs
-	nilF map[string]bool
-	seq1 bool // single task: stronger in-callback check
+	c        *Cell
+	p        *Plan
+	sim      *simrt.Sim
+	mock     reflect.Value
+	obs      *Obs
+	nilF     map[string]bool
+	seq1     bool // single task: stronger in-callback check
 	hasReset map[string]bool
 }
 
